@@ -5,6 +5,7 @@
 // One translation unit per engine must define VF_RT_MAIN before including this header.
 #pragma once
 #include <algorithm>
+#include <atomic>
 #include <cinttypes>
 #include <csignal>
 #include <cstdarg>
@@ -169,8 +170,8 @@ Args& args() { static Args a; return a; }
 Report& rep() { static Report r; return r; }
 static char g_current[8192];
 static int g_current_fd = -1;
-static volatile uint64_t g_progress = 0;
-static volatile unsigned g_watchdog_s = 180;
+static std::atomic<uint64_t> g_progress{0};
+static std::atomic<unsigned> g_watchdog_s{180};
 void set_watchdog(unsigned seconds) { g_watchdog_s = seconds; g_progress++; }
 void tick() { g_progress++; }
 void set_current(const char* f, ...) { va_list ap; va_start(ap, f); vsnprintf(g_current, sizeof g_current, f, ap); va_end(ap); g_progress++; }
@@ -185,11 +186,11 @@ static void dump_current() {
 }
 static void crash_handler(int sig) { dump_current(); signal(sig, SIG_DFL); raise(sig); }
 static void* watchdog_main(void*) {
-  uint64_t last = g_progress; unsigned idle = 0;
+  uint64_t last = g_progress.load(); unsigned idle = 0;
   for (;;) {
     sleep(1);
-    if (g_progress != last) { last = g_progress; idle = 0; continue; }
-    if (++idle >= g_watchdog_s) {
+    if (g_progress.load() != last) { last = g_progress.load(); idle = 0; continue; }
+    if (++idle >= g_watchdog_s.load()) {
       fprintf(stderr, "[w%d] watchdog: no progress for %u s; case in flight: %s\n", args().worker, idle, g_current);
       dump_current(); _exit(77);
     }
